@@ -28,7 +28,7 @@ ROOT = os.path.dirname(os.path.dirname(os.path.abspath(__file__)))
 sys.path.insert(0, os.path.join(ROOT, 'gen'))
 import core  # noqa: E402
 
-BUILD = os.path.join(ROOT, 'build')
+BUILD = core.BUILD
 COQ = os.path.join(ROOT, 'coq')
 REPO = os.environ.get('VERIF_REPO', '/repo')
 GOENV = dict(os.environ, GOFLAGS='-mod=mod', GOPROXY='off', GOSUMDB='off', GOTOOLCHAIN='local',
@@ -121,12 +121,16 @@ def build(need_race=False, full=False):
                 'model.mli', 'model.ml', 'driver.ml', '-o', 'driver.new'], cwd=odir)
             os.replace(os.path.join(odir, 'driver.new'), drv)
         # 4. Go runner, always rebuilt from /repo's working tree (go's build cache makes it cheap)
-        rdir = os.path.join(ROOT, 'go', 'runner')
+        src = os.path.join(ROOT, 'go', 'runner')
+        rdir = os.path.join(BUILD, 'runner_src')
+        os.makedirs(rdir, exist_ok=True)
+        for f in os.listdir(src):
+            if f.endswith('.go'):
+                shutil.copy(os.path.join(src, f), rdir)
         shutil.copy(os.path.join(REPO, 'go.sum'), os.path.join(rdir, 'go.sum'))
-        gomod = open(os.path.join(rdir, 'go.mod')).read()
+        gomod = open(os.path.join(src, 'go.mod')).read()
         want = re.sub(r'replace github.com/AsaiYusuke/jsonpath => .*', 'replace github.com/AsaiYusuke/jsonpath => ' + REPO, gomod)
-        if want != gomod:
-            open(os.path.join(rdir, 'go.mod'), 'w').write(want)
+        open(os.path.join(rdir, 'go.mod'), 'w').write(want)
         p = sh(['go', 'build', '-tags', 'verif', '-o', os.path.join(BUILD, 'runner.new'), '.'], cwd=rdir, env=GOENV, check=False)
         if p.returncode != 0:
             st.go_error = (p.stdout + p.stderr)[-3000:]
